@@ -32,7 +32,7 @@ func init() {
 		ID: "C10", Gen: genC10, Run: runC10, Quick: 4000, Thorough: 600000,
 		Real: []string{"pkg/collector template table with UDP lifetime management (addTemplate, timer callback, deleteTemplateWithConds), decodePacket through the VerifDecodePacket hook", "member 1: the library's realClock (time.AfterFunc) inside the bubble"},
 		Stub: []string{"member 0: the clock/timer seam is implemented by the simulator (simclock: Now, AfterFunc, Stop, Reset with time.AfterFunc's documented semantics; firing and callback execution are plan operations)", "UDP socket (messages are handed to the decoder directly)"},
-		Rule: "sequences over 2 template ids x 2 observation domains of {template, refresh, replace, bad template, data, clock advance incl. exactly to an expiry, fire timer, run pending callback}; TTL model + timer census after every operation; non-trivial = at least one timer fired while its template was refreshed/replaced/invalidated before the callback ran, or at least one expiry; distinct = distinct event-log hash",
+		Rule: "sequences over 2 template ids x 2 observation domains of {template, refresh, replace, bad template, data, clock advance incl. exactly to an expiry, fire timer, run pending callback, callbacks on their own goroutine}; lifetimes from 1 s to a year; TTL model + timer census after every operation; non-trivial = at least one timer fired while its template was refreshed/replaced/invalidated before the callback ran, or at least one expiry; distinct = distinct event-log hash",
 	})
 }
 
